@@ -42,6 +42,8 @@ def jobs(tier):
 BOUNDS = {'quick': '9 source scenarios + 2-line sources; pre-existing output / temp absent or any bytes of length 0-4 (so: up to date, stale, '
                    'missing, strict extension / prefix of the fresh content, invalid UTF-8)',
           'thorough': 'pre-states 0-7 bytes, all 2-line sources'}
+from . import project as _project
+BOUNDS = {k: v + _project.bounds_note('C09', k) for k, v in BOUNDS.items()}
 ASSUMPTIONS = ['D1-D12', '"not rewritten" = no mutating FS call on that path (inode and mtime follow by the OS contract)']
 COVERS_REQUIRED = ['both_ok', 'both_fail', 'not_rewritten', 'rewritten', 'temp']
 
